@@ -772,6 +772,15 @@ func (env *SpecEnv) call(e *SExpr) Val {
 		// iface(p): the interface value holding pointer p (static type of p gives the tag)
 		v := arg(0)
 		return Val{T: fmt.Sprintf("(mk_iface %d %s)", reg.TypeTag(v.GT), v.T), S: SIface}
+	case "unmok", "deserok":
+		// success of the corresponding decode, a function of the bytes
+		d := arg(0)
+		st := env.resolveType(e.Args[1].Name)
+		if st.GT == nil {
+			env.fail("%s: not a Go type: %s", e.Name, e.Args[1].Name)
+		}
+		fn := reg.UFun(e.Name+"_"+sortTag(st.S)+"_"+hashName(types.TypeString(st.GT, nil)), []Sort{SBytes}, SBool)
+		return Val{T: app(fn, d.T), S: SBool}
 	case "unm", "deser":
 		// unm(data, "T"): the value encoding/json.Unmarshal decodes from data into a T (T-JSON);
 		// deser(data, "T"): likewise for serialize.Serializer.Deserialize (T-SER)
